@@ -52,9 +52,24 @@ const avoidKnownBoolLikeText = true
 // case
 
 type keyItem struct {
-	Col   int    `json:"col"`             // index into Kinds / row cells
-	Dir   string `json:"dir,omitempty"`   // "", ASC, DESC
-	Nulls string `json:"nulls,omitempty"` // "", FIRST, LAST
+	Col   int      `json:"col"`             // index into Kinds / row cells
+	Dir   string   `json:"dir,omitempty"`   // "", ASC, DESC
+	Nulls string   `json:"nulls,omitempty"` // "", FIRST, LAST
+	Expr  *keyExpr `json:"expr,omitempty"`  // the ORDER BY item is an expression over the column (key_expr sub-check)
+}
+
+// keyExpr: an ORDER BY item that is not a bare column name. The reference
+// computes the value the expression has in every row (derived column) and
+// sorts by that.
+type keyExpr struct {
+	// qualified (t.k1) | plus0 (k1 + 0) | times2 (2 * k1) | neg (k1 * -1) | abs | upper | lower | concat (k1 || '') |
+	// datetime (DATETIME(k1)) | coalesce | case_null (NULL replaced by Arg) | rank | dense_rank | row_number
+	// (analytic function ordered by the column) | const (Arg) | plain (bare column; only with ViaAlias)
+	Op       string   `json:"op"`
+	Arg      *val.Val `json:"arg,omitempty"`
+	IDir     string   `json:"idir,omitempty"`      // direction inside OVER (ORDER BY ...)
+	INulls   string   `json:"inulls,omitempty"`    // null position inside OVER (ORDER BY ...)
+	ViaAlias bool     `json:"via_alias,omitempty"` // the expression is a select-list item "expr AS x<i>" and ORDER BY names x<i>
 }
 
 type cutSpec struct {
@@ -71,6 +86,13 @@ type cutSpec struct {
 	M         int64  `json:"m,omitempty"`
 	OffWord   string `json:"off_word,omitempty"`
 	ViaVars   bool   `json:"via_vars,omitempty"` // the counts are variables and the query runs twice with other integer arithmetic in between; the second result is judged
+	// how the count values are written (ignored with ViaVars): "" literal | str ('3') | pad (' 3 ') | float (3.0) |
+	// expr ((2 + 1)) | subq ((SELECT COUNT(*) FROM t) - d); percent: "" | str | expr
+	NForm string `json:"n_form,omitempty"`
+	MForm string `json:"m_form,omitempty"`
+	PForm string `json:"p_form,omitempty"`
+	// the query is a prepared statement with placeholders for the counts, executed first with other counts, then with these; the second result is judged
+	ViaPrep bool `json:"via_prep,omitempty"`
 }
 
 type sortCase struct {
@@ -84,6 +106,7 @@ type sortCase struct {
 	IDOnly   bool        `json:"id_only,omitempty"` // SELECT id only (keys not in the select list)
 	Star     bool        `json:"star,omitempty"`
 	CPU      int         `json:"cpu"`
+	From     string      `json:"from,omitempty"` // "" | alias (FROM t AS a, keys qualified a.k1) | join1 (CROSS JOIN with a one-row derived table)
 }
 
 // ---------------------------------------------------------------------
@@ -563,7 +586,95 @@ func genCutCase(t *rapid.T) sortCase {
 	genCut(t, &c)
 	// only the cut sub-check declares the variables (checkCut); the nested and datetime_format sub-checks share genCut
 	if c.Cut.Form != "none" && c.Cut.Form != "" {
-		c.Cut.ViaVars = chance(t, "viaVars", 15)
+		switch weighted(t, "countsVia", []int{15, 12, 73}) {
+		case 0:
+			c.Cut.ViaVars = true
+		case 1:
+			c.Cut.ViaPrep = true
+		}
+		if !c.Cut.ViaVars {
+			intForms := []string{"subq", "expr", "float", "pad", "str", "", "", "", ""}
+			if c.Cut.ViaPrep {
+				intForms = []string{"float", "pad", "str", "", ""}
+			}
+			c.Cut.NForm = pickW(t, "nForm", intForms)
+			c.Cut.MForm = pickW(t, "mForm", intForms)
+			c.Cut.PForm = pickW(t, "pForm", []string{"expr", "str", "", ""})
+			if c.Cut.ViaPrep && c.Cut.PForm == "expr" {
+				c.Cut.PForm = ""
+			}
+		}
+	}
+	return c
+}
+
+// genKeyExprCase: ORDER BY items that are expressions over the key columns.
+func genKeyExprCase(t *rapid.T) sortCase {
+	c := sortCase{}
+	genTable(t, &c)
+	genKeys(t, &c, 40)
+	c.From = []string{"selfjoin", "join1", "alias", ""}[weighted(t, "from", []int{15, 12, 23, 50})]
+	if c.From == "selfjoin" && len(c.Rows) > 40 {
+		c.From = "alias" // the join evaluates its condition for every pair of rows
+	}
+	if c.From == "join1" || c.From == "selfjoin" {
+		c.Star = false // the joined table would add columns
+	}
+	big, _, _, _ := bigIntInfo(c.Rows, c.Keys)
+	for i := range c.Keys {
+		if !chance(t, "isExpr", 75) {
+			continue
+		}
+		k := &c.Keys[i]
+		kind := c.Kinds[k.Col]
+		ops := []string{"const", "row_number", "dense_rank", "rank", "case_null", "coalesce", "qualified", "plain"}
+		switch kind {
+		case "num":
+			if !big {
+				ops = append(ops, "abs", "neg", "neg", "times2", "plus0")
+			}
+		case "text":
+			ops = append(ops, "concat", "lower", "upper")
+		case "dt":
+			ops = append(ops, "datetime", "datetime")
+		}
+		e := &keyExpr{Op: pickW(t, "op", ops)}
+		if e.Op == "qualified" && (c.From == "alias" || c.From == "selfjoin") {
+			e.Op = "plain" // the table has an alias: the qualifier is the alias anyway
+		}
+		switch e.Op {
+		case "coalesce", "case_null":
+			var a val.Val
+			switch kind {
+			case "num":
+				a = genNum(t, "view", true, map[float64]bool{}, map[float64]bool{})
+				if big {
+					a = val.Int(0)
+				}
+			case "dt":
+				a = genDt(t, "view")
+			default:
+				a = genText(t, false)
+			}
+			e.Arg = &a
+		case "const":
+			a := pickW(t, "constArg", []val.Val{val.Null, val.Str("x"), val.Int(1)})
+			e.Arg = &a
+		case "rank", "dense_rank", "row_number":
+			e.IDir = fw.Pick(t, "idir", []string{"", "ASC", "DESC"})
+			e.INulls = fw.Pick(t, "inulls", []string{"", "", "FIRST", "LAST"})
+		}
+		e.ViaAlias = !c.Star && chance(t, "viaAlias", 30)
+		if e.Op == "plain" && !e.ViaAlias && c.From != "alias" && c.From != "selfjoin" {
+			k.Expr = nil
+			continue
+		}
+		k.Expr = e
+	}
+	if chance(t, "cut", 50) {
+		genCut(t, &c)
+	} else {
+		c.Cut = cutSpec{Form: "none"}
 	}
 	return c
 }
@@ -588,10 +699,87 @@ func pctText(p100 int64) string {
 	return s
 }
 
+// keyColRef: how an ORDER BY item names its column.
+func (c sortCase) keyColRef(k keyItem) string {
+	switch {
+	case c.From == "alias":
+		return "a." + colName(k.Col)
+	case c.From == "selfjoin":
+		// the table joined with itself on the unique id: odd key columns are read from the second copy
+		if k.Col%2 == 1 {
+			return "b." + colName(k.Col)
+		}
+		return "a." + colName(k.Col)
+	case k.Expr != nil && k.Expr.Op == "qualified":
+		return "t." + colName(k.Col)
+	}
+	return colName(k.Col)
+}
+
+// keyExprSQL: the expression of an ORDER BY item (without direction / null position).
+func (c sortCase) keyExprSQL(k keyItem) string {
+	col := c.keyColRef(k)
+	if k.Expr == nil {
+		return col
+	}
+	arg := "NULL"
+	if k.Expr.Arg != nil {
+		arg = k.Expr.Arg.SQL()
+	}
+	over := func(extra string) string {
+		o := col
+		if k.Expr.IDir != "" {
+			o += " " + k.Expr.IDir
+		}
+		if k.Expr.INulls != "" {
+			o += " NULLS " + k.Expr.INulls
+		}
+		return " OVER (ORDER BY " + o + extra + ")"
+	}
+	switch k.Expr.Op {
+	case "plus0":
+		return col + " + 0"
+	case "times2":
+		return "2 * " + col
+	case "neg":
+		return col + " * -1"
+	case "abs":
+		return "ABS(" + col + ")"
+	case "upper":
+		return "UPPER(" + col + ")"
+	case "lower":
+		return "LOWER(" + col + ")"
+	case "concat":
+		return col + " || ''"
+	case "datetime":
+		return "DATETIME(" + col + ")"
+	case "coalesce":
+		return "COALESCE(" + col + ", " + arg + ")"
+	case "case_null":
+		return "CASE WHEN " + col + " IS NULL THEN " + arg + " ELSE " + col + " END"
+	case "rank":
+		return "RANK()" + over("")
+	case "dense_rank":
+		return "DENSE_RANK()" + over("")
+	case "row_number":
+		idc := "id"
+		if c.From == "alias" || c.From == "selfjoin" {
+			idc = "a.id"
+		}
+		return "ROW_NUMBER()" + over(", "+idc)
+	case "const":
+		return arg
+	}
+	return col
+}
+
 func (c sortCase) orderBy() string {
 	var items []string
-	for _, k := range c.Keys {
-		s := colName(k.Col)
+	for i, k := range c.Keys {
+		s := c.keyExprSQL(k)
+		if k.Expr != nil && k.Expr.ViaAlias {
+			s = fmt.Sprintf("x%d", i)
+		}
 		if k.Dir != "" {
 			s += " " + k.Dir
 		}
@@ -601,7 +789,11 @@ func (c sortCase) orderBy() string {
 		items = append(items, s)
 	}
 	if c.TieBreak != "" {
-		items = append(items, "id "+c.TieBreak)
+		if c.From == "alias" || c.From == "selfjoin" {
+			items = append(items, "a.id "+c.TieBreak)
+		} else {
+			items = append(items, "id "+c.TieBreak)
+		}
 	}
 	if len(items) == 0 {
 		return ""
@@ -614,11 +806,40 @@ func (c sortCase) cutVarsSQL() string {
 	return fmt.Sprintf("VAR @cn := %d; VAR @cm := %d; VAR @cp := %s;", c.Cut.N, c.Cut.M, pctText(c.Cut.P100))
 }
 
+// countText writes an integer count in the drawn form.
+func (c sortCase) countText(x int64, form string) string {
+	switch form {
+	case "str":
+		return fmt.Sprintf("'%d'", x)
+	case "pad":
+		return fmt.Sprintf("' %d '", x)
+	case "float":
+		return fmt.Sprintf("%d.0", x)
+	case "expr":
+		return fmt.Sprintf("(%d + 1)", x-1)
+	case "subq":
+		d := int64(len(c.Rows)) - x
+		if d < 0 {
+			return fmt.Sprintf("((SELECT COUNT(*) FROM %s) + %d)", c.tableRef(), -d)
+		}
+		return fmt.Sprintf("((SELECT COUNT(*) FROM %s) - %d)", c.tableRef(), d)
+	}
+	return fmt.Sprintf("%d", x)
+}
+
 func (c sortCase) cutSQL() string {
 	cut := c.Cut
-	nText, mText, pText := fmt.Sprintf("%d", cut.N), fmt.Sprintf("%d", cut.M), pctText(cut.P100)
+	nText, mText, pText := c.countText(cut.N, cut.NForm), c.countText(cut.M, cut.MForm), pctText(cut.P100)
+	switch cut.PForm {
+	case "str":
+		pText = "'" + pText + "'"
+	case "expr":
+		pText = "(" + pText + " * 1)"
+	}
 	if cut.ViaVars {
 		nText, mText, pText = "@cn", "@cm", "@cp"
+	} else if cut.ViaPrep {
+		nText, mText, pText = ":cn", ":cm", ":cp"
 	}
 	off := ""
 	if cut.HasOffset {
@@ -661,22 +882,51 @@ func (c sortCase) tableRef() string {
 	return "t"
 }
 
+// aliasItems: select-list items "expr AS x<i>" of the ORDER BY items that are named through an alias.
+func (c sortCase) aliasItems() []string {
+	var items []string
+	for i, k := range c.Keys {
+		if k.Expr != nil && k.Expr.ViaAlias {
+			items = append(items, fmt.Sprintf("%s AS x%d", c.keyExprSQL(k), i))
+		}
+	}
+	return items
+}
+
 func (c sortCase) selectList() string {
+	var cols []string
+	q := ""
+	if c.From == "selfjoin" {
+		q = "a."
+	}
 	switch {
 	case c.IDOnly:
-		return "id"
-	case c.Star:
-		return "*"
+		cols = []string{q + "id"}
+	case c.Star && q == "":
+		cols = []string{"*"}
+	default:
+		cols = []string{q + "id"}
+		for j := range c.Kinds {
+			cols = append(cols, q+colName(j))
+		}
 	}
-	cols := []string{"id"}
-	for j := range c.Kinds {
-		cols = append(cols, colName(j))
+	return strings.Join(append(cols, c.aliasItems()...), ", ")
+}
+
+func (c sortCase) fromSQL() string {
+	switch c.From {
+	case "alias":
+		return c.tableRef() + " AS a"
+	case "join1":
+		return c.tableRef() + " CROSS JOIN (SELECT 1 AS one) AS j"
+	case "selfjoin":
+		return c.tableRef() + " AS a JOIN " + c.tableRef() + " AS b ON a.id = b.id"
 	}
-	return strings.Join(cols, ", ")
+	return c.tableRef()
 }
 
 func (c sortCase) baseSQL() string {
-	return "SELECT " + c.selectList() + " FROM " + c.tableRef()
+	return "SELECT " + c.selectList() + " FROM " + c.fromSQL()
 }
 
 func csvQuote(s string) string {
@@ -773,6 +1023,121 @@ func cmpKey(a, b val.Val, k keyItem) (int, bool) {
 		r = -r
 	}
 	return r, true
+}
+
+// derived: the case the reference sorts - every ORDER BY item that is an
+// expression gets a column holding the expression's value per row, and the key
+// points at that column. ok=false: some value is outside what the reference computes.
+func (c sortCase) derived() (sortCase, bool) {
+	has := false
+	for _, k := range c.Keys {
+		if k.Expr != nil {
+			has = true
+		}
+	}
+	if !has {
+		return c, true
+	}
+	rc := c
+	rc.Kinds = append([]string(nil), c.Kinds...)
+	rc.Keys = append([]keyItem(nil), c.Keys...)
+	rc.Rows = make([][]val.Val, len(c.Rows))
+	for i, row := range c.Rows {
+		rc.Rows[i] = append([]val.Val(nil), row...)
+	}
+	ok := true
+	for ki, k := range c.Keys {
+		if k.Expr == nil {
+			continue
+		}
+		e := k.Expr
+		kind := c.Kinds[k.Col]
+		col := make([]val.Val, len(c.Rows))
+		for i, row := range c.Rows {
+			col[i] = row[k.Col]
+		}
+		switch e.Op {
+		case "plain", "qualified", "plus0", "times2", "upper", "lower", "concat", "datetime":
+			// same order and same ties as the column itself
+		case "neg", "abs":
+			for i, v := range col {
+				if v.IsNull() {
+					continue
+				}
+				if x, isInt := ref.AsInteger(v); isInt {
+					if x == math.MinInt64 || x >= 1<<53 || x <= -(1<<53) {
+						ok = false
+					}
+					if x < 0 || e.Op == "neg" {
+						x = -x
+					}
+					col[i] = val.Int(x)
+				} else if f, isF := ref.AsFloat(v); isF {
+					if f < 0 || e.Op == "neg" {
+						f = -f
+					}
+					col[i] = val.Float(f)
+				} else {
+					ok = false
+				}
+			}
+		case "coalesce", "case_null":
+			for i, v := range col {
+				if v.IsNull() && e.Arg != nil {
+					col[i] = *e.Arg
+				}
+			}
+		case "const":
+			for i := range col {
+				if e.Arg != nil {
+					col[i] = *e.Arg
+				} else {
+					col[i] = val.Null
+				}
+			}
+			kind = "num"
+		case "rank", "dense_rank", "row_number":
+			inner := sortCase{Kinds: c.Kinds, IDs: c.IDs, Rows: c.Rows, Keys: []keyItem{{Col: k.Col, Dir: e.IDir, Nulls: e.INulls}}}
+			if e.Op == "row_number" {
+				inner.TieBreak = "ASC"
+			}
+			im := buildRef(inner)
+			if im.bad {
+				ok = false
+				break
+			}
+			first := map[int]int{} // tie group -> first position
+			for p := 0; p < im.n; p++ {
+				if _, seen := first[im.groupAt[p]]; !seen {
+					first[im.groupAt[p]] = p
+				}
+				switch e.Op {
+				case "rank":
+					col[im.order[p]] = val.Int(int64(first[im.groupAt[p]] + 1))
+				case "dense_rank":
+					col[im.order[p]] = val.Int(int64(im.groupAt[p] + 1))
+				default:
+					col[im.order[p]] = val.Int(int64(p + 1))
+				}
+			}
+			kind = "num"
+		default:
+			ok = false
+		}
+		if e.Op == "times2" || e.Op == "plus0" {
+			for _, v := range col {
+				if x, isInt := ref.AsInteger(v); isInt && (x >= 1<<53 || x <= -(1<<53)) {
+					ok = false // arithmetic on integers of that size belongs to another property
+				}
+			}
+		}
+		for i := range rc.Rows {
+			rc.Rows[i] = append(rc.Rows[i], col[i])
+		}
+		rc.Kinds = append(rc.Kinds, kind)
+		rc.Keys[ki] = keyItem{Col: len(rc.Kinds) - 1, Dir: k.Dir, Nulls: k.Nulls}
+	}
+	return rc, ok
 }
 
 type refModel struct {
@@ -946,16 +1311,17 @@ func (c sortCase) decode(tbl run.Tbl) ([]outRow, *fw.Violation) {
 	if !c.IDOnly {
 		want = 1 + len(c.Kinds)
 	}
+	extra := len(c.aliasItems()) // aliased ORDER BY expressions follow the table columns
 	var out []outRow
 	for _, r := range tbl.Rows {
-		if len(r) != want {
-			return nil, fw.V("result_shape", "row has %d cells, expected %d", len(r), want)
+		if len(r) != want+extra {
+			return nil, fw.V("result_shape", "row has %d cells, expected %d", len(r), want+extra)
 		}
 		id, ok := ref.AsInteger(r[0])
 		if !ok {
 			return nil, fw.V("result_shape", "id cell %s is not an integer", r[0])
 		}
-		out = append(out, outRow{id: id, cells: r[1:]})
+		out = append(out, outRow{id: id, cells: r[1:want]})
 	}
 	return out, nil
 }
@@ -1051,6 +1417,11 @@ func checkCaseExt(c sortCase, pre string, refRows [][]val.Val) (fw.Outcome, *fw.
 	if refRows != nil {
 		rc.Rows = refRows
 	}
+	rc, derivedOK := rc.derived()
+	if !derivedOK {
+		o.Discard = true
+		return o, nil
+	}
 	m := buildRef(rc)
 	if m.bad {
 		o.Discard = true
@@ -1102,7 +1473,39 @@ func checkCaseExt(c sortCase, pre string, refRows [][]val.Val) (fw.Outcome, *fw.
 		}
 		sql = "/* second run; " + c.cutVarsSQL() + " */ " + sql
 	}
-	tbl, qerr := s.Query(sql)
+	var tbl run.Tbl
+	var qerr error
+	if cut.ViaPrep && !cut.ViaVars {
+		// the counts are placeholders of a prepared statement that is executed with other counts first; the
+		// second execution - the one judged below - must not remember anything of the first
+		addClass("cut_via_prepared_statement_second_execution")
+		using := func(n, m, p100 int64) string {
+			var parts []string
+			if cut.HasLimit && !cut.Percent {
+				parts = append(parts, c.countText(n, cut.NForm)+" AS cn")
+			}
+			if cut.HasLimit && cut.Percent {
+				pt := pctText(p100)
+				if cut.PForm == "str" {
+					pt = "'" + pt + "'"
+				}
+				parts = append(parts, pt+" AS cp")
+			}
+			if cut.HasOffset {
+				parts = append(parts, c.countText(m, cut.MForm)+" AS cm")
+			}
+			return "EXECUTE p USING " + strings.Join(parts, ", ") + ";"
+		}
+		prep := "PREPARE p FROM " + val.QuoteSQL(sql) + ";"
+		if r := s.Exec(prep); r.Err != nil {
+			return o, fw.V("setup_error", "%s: %v", prep, r.Err)
+		}
+		_ = s.Exec(using(cut.N+1, cut.M+1, cut.P100+500))
+		sql = prep + " /* after " + using(cut.N+1, cut.M+1, cut.P100+500) + " */ " + using(cut.N, cut.M, cut.P100)
+		tbl, qerr = s.Query(using(cut.N, cut.M, cut.P100))
+	} else {
+		tbl, qerr = s.Query(sql)
+	}
 
 	wins, dontCare := m.windows()
 	zeroCount := cut.HasLimit && ((cut.Percent && cut.P100 <= 0) || (!cut.Percent && cut.N <= 0))
@@ -1153,9 +1556,9 @@ func checkCaseExt(c sortCase, pre string, refRows [][]val.Val) (fw.Outcome, *fw.
 	// --- sorted: tie-group numbers never decrease -----------------------
 	sortSig := func() string {
 		switch {
-		case c.hasIntFloatEqual():
+		case rc.hasIntFloatEqual():
 			return "sort_order_int_float_equal"
-		case c.hasBoolLike():
+		case rc.hasBoolLike():
 			return "sort_order_bool_like_text"
 		}
 		return "sort_order"
@@ -1192,9 +1595,9 @@ func checkCaseExt(c sortCase, pre string, refRows [][]val.Val) (fw.Outcome, *fw.
 			sig = "limit_percent_over_100"
 		case cut.WithTies && ordered && lo > 0:
 			sig = "with_ties_after_offset"
-		case cut.WithTies && ordered && c.hasIntFloatEqual():
+		case cut.WithTies && ordered && rc.hasIntFloatEqual():
 			sig = "with_ties_int_float_equal"
-		case cut.WithTies && ordered && c.hasBoolLike():
+		case cut.WithTies && ordered && rc.hasBoolLike():
 			sig = "with_ties_bool_like_text"
 		case cut.WithTies && ordered:
 			sig = "with_ties_count"
@@ -1212,9 +1615,9 @@ func checkCaseExt(c sortCase, pre string, refRows [][]val.Val) (fw.Outcome, *fw.
 				sig := sortSig()
 				if cut.Form != "none" {
 					sig = "cut_rows"
-					if c.hasIntFloatEqual() {
+					if rc.hasIntFloatEqual() {
 						sig = "cut_rows_int_float_equal"
-					} else if c.hasBoolLike() {
+					} else if rc.hasBoolLike() {
 						sig = "cut_rows_bool_like_text"
 					}
 				}
@@ -1254,16 +1657,16 @@ func checkCaseExt(c sortCase, pre string, refRows [][]val.Val) (fw.Outcome, *fw.
 
 	// --- classes and non-triviality ---------------------------------------------
 	hasNull, dupFirst := false, false
-	for _, k := range c.Keys {
-		for _, row := range c.Rows {
+	for _, k := range rc.Keys {
+		for _, row := range rc.Rows {
 			if row[k.Col].IsNull() {
 				hasNull = true
 			}
 		}
 	}
 	if len(c.Keys) > 0 {
-		k0 := c.Keys[0]
-		only := sortCase{Rows: rc.Rows, IDs: c.IDs, Keys: []keyItem{k0}, Kinds: c.Kinds}
+		k0 := rc.Keys[0]
+		only := sortCase{Rows: rc.Rows, IDs: c.IDs, Keys: []keyItem{k0}, Kinds: rc.Kinds}
 		m0 := buildRef(only)
 		if !m0.bad && n > 0 && m0.groupAt[n-1] < n-1 {
 			dupFirst = true
@@ -1275,7 +1678,7 @@ func checkCaseExt(c sortCase, pre string, refRows [][]val.Val) (fw.Outcome, *fw.
 	if dupFirst {
 		addClass("first_key_has_duplicates")
 	}
-	if c.hasIntFloatEqual() {
+	if rc.hasIntFloatEqual() {
 		addClass("int_float_equal_pair")
 	}
 	bigFp := ""
@@ -1291,7 +1694,7 @@ func checkCaseExt(c sortCase, pre string, refRows [][]val.Val) (fw.Outcome, *fw.
 			bigFp += "+floats"
 		}
 	}
-	if c.hasBoolLike() {
+	if rc.hasBoolLike() {
 		addClass("bool_like_text")
 	}
 	var keyFp []string
@@ -1309,6 +1712,49 @@ func checkCaseExt(c sortCase, pre string, refRows [][]val.Val) (fw.Outcome, *fw.
 		addClass("key_kind:" + c.Kinds[k.Col])
 		addClass("key_dir:" + map[string]string{"A": "ASC", "a": "default", "D": "DESC"}[d])
 		addClass("key_nulls:" + map[string]string{"-": "default", "F": "FIRST", "L": "LAST"}[np])
+	}
+	exprFp := ""
+	for _, k := range c.Keys {
+		if k.Expr != nil {
+			addClass("key_expr:" + k.Expr.Op)
+			exprFp += k.Expr.Op
+			if k.Expr.ViaAlias {
+				addClass("key_expr_via_select_alias")
+				exprFp += "@"
+			}
+			if k.Expr.IDir != "" || k.Expr.INulls != "" {
+				exprFp += "(" + k.Expr.IDir + k.Expr.INulls + ")"
+			}
+			exprFp += ","
+		}
+	}
+	if c.From != "" {
+		addClass("from:" + c.From)
+		exprFp += "from:" + c.From
+	}
+	if exprFp != "" {
+		bigFp += "|expr:" + exprFp
+	}
+	if !cut.ViaVars && cut.Form != "none" && cut.Form != "" {
+		forms := ""
+		if cut.HasLimit && !cut.Percent && cut.NForm != "" {
+			addClass("limit_written_as:" + cut.NForm)
+			forms += "n:" + cut.NForm
+		}
+		if cut.HasOffset && cut.MForm != "" {
+			addClass("offset_written_as:" + cut.MForm)
+			forms += "m:" + cut.MForm
+		}
+		if cut.HasLimit && cut.Percent && cut.PForm != "" {
+			addClass("percent_written_as:" + cut.PForm)
+			forms += "p:" + cut.PForm
+		}
+		if cut.ViaPrep {
+			forms += "prep"
+		}
+		if forms != "" {
+			bigFp += "|counts:" + forms
+		}
 	}
 	keys := strings.Join(keyFp, ",") + "|tb:" + c.TieBreak + bigFp
 	interesting := len(c.Keys) >= 2 || dupFirst || hasNull
@@ -1453,8 +1899,19 @@ func TestC07Sort(t *testing.T) {
 	fw.Run(t, fw.Spec[sortCase]{
 		ID: "C07", Name: "sort", Quick: 10000, Thorough: 200000,
 		Gen: genSortCase, Check: checkCase,
-		Rule: "tables of 0-12 rows (10%: 160-400 rows with CPU 4) from a CSV file or a typed temporary table, 1-3 key columns of numbers (incl. neighbouring integers beyond 2^53 that share a float64 image) / datetimes / text drawn from small pools (duplicates) with 0-40% NULLs; ORDER BY over 1-3 of them with ASC/DESC and NULLS FIRST/LAST, optionally id as unique last key; oracle: every output row is an input row (by id, cell for cell), none twice, all present, and output position i holds a row of the tie group that the reference order (documented comparison ladder, documented NULL default) has at position i; non-trivial = >=2 rows and (>=2 keys or duplicates in the first key or NULLs), distinct by (key kinds/directions/null positions, tiebreak, source, tie structure, size class, select list)",
+		Rule:        "tables of 0-12 rows (10%: 160-400 rows with CPU 4) from a CSV file or a typed temporary table, 1-3 key columns of numbers (incl. neighbouring integers beyond 2^53 that share a float64 image) / datetimes / text drawn from small pools (duplicates) with 0-40% NULLs; ORDER BY over 1-3 of them with ASC/DESC and NULLS FIRST/LAST, optionally id as unique last key; oracle: every output row is an input row (by id, cell for cell), none twice, all present, and output position i holds a row of the tie group that the reference order (documented comparison ladder, documented NULL default) has at position i; non-trivial = >=2 rows and (>=2 keys or duplicates in the first key or NULLs), distinct by (key kinds/directions/null positions, tiebreak, source, tie structure, size class, select list)",
 		Assumptions: []string{assumeDomain, "tie order is free: rows with equal keys are only required to occupy their group's positions"},
+	})
+}
+
+func TestC07KeyExpr(t *testing.T) {
+	fw.Run(t, fw.Spec[sortCase]{
+		ID: "C07", Name: "key_expr", Quick: 8000, Thorough: 120000,
+		Gen: genKeyExprCase, Check: checkCase,
+		Rule: "tables, key lists and cuts as in 'sort' / 'cut'; 75% of the ORDER BY items are expressions over their key column instead of the bare name: table-qualified name, k + 0, 2 * k, k * -1, ABS(k) (numbers), UPPER / LOWER / k || '' (text), DATETIME(k) (datetimes), COALESCE(k, c) and CASE WHEN k IS NULL THEN c ELSE k END with a constant of the column's kind, RANK() / DENSE_RANK() / ROW_NUMBER() OVER (ORDER BY k [ASC|DESC] [NULLS FIRST|LAST][, id]), a constant; 30% of them are written as a select-list item 'expr AS x' with ORDER BY naming the alias; FROM is the table, the table under an alias (keys qualified with it), the table cross-joined with a one-row derived table, or the table joined with itself on the unique id (keys taken alternately from the two copies); oracle: the reference computes the value of every expression per row (negation / absolute value numerically, NULL replacement, rank / dense rank / row number from the reference order of the inner key) and then applies the 'sort' / 'cut' oracle to these derived columns; non-trivial as in 'sort' / 'cut' (on the derived keys), distinct additionally by (expression kinds, alias use, FROM shape)",
+		Assumptions: []string{assumeDomain, assumeNeg, assumePct,
+			"order-preserving expressions (k + 0, 2 * k, UPPER, LOWER, || '', DATETIME, qualified names) are taken to keep the order and the ties of their column; arithmetic is not applied to integers beyond 2^53 (integer overflow and float rounding belong to the arithmetic property)",
+			"the values of RANK / DENSE_RANK / ROW_NUMBER are computed from the reference order of the inner key (their definition is checked by C17); boolean-valued expressions (k IS NULL) are not used as keys (booleans are outside the quantifier)"},
 	})
 }
 
@@ -1462,7 +1919,7 @@ func TestC07Cut(t *testing.T) {
 	fw.Run(t, fw.Spec[sortCase]{
 		ID: "C07", Name: "cut", Quick: 24000, Thorough: 480000,
 		Gen: genCutCase, Check: checkCase,
-		Rule: "tables and ORDER BY as in 'sort' (50% with unique id tiebreak, 6% without ORDER BY) plus LIMIT n / p PERCENT [ONLY | WITH TIES] [OFFSET m], the FETCH FIRST|NEXT spelling, or OFFSET alone; n, m from {negative, 0, 1, middle, count-1, count, count+1, beyond}, p from {negative, 0, fractional, whole-row, 100, >100}; oracle: reference window [m, m+n) over the reference order (PERCENT of the pre-offset count, WITH TIES extended to the end of the last kept row's tie group, ignored without ORDER BY), output length equals the window's and position i holds a row of the tie group at window position i (exact sequence when the keys are unique; key-tuple multiset otherwise); non-trivial = ORDER BY present, (>=2 keys or duplicates in the first key or NULLs) and the cut removes >=1 and keeps >=1 row, distinct by (key kinds/directions/null positions, tiebreak, limit kind, boundary class)",
+		Rule: "tables and ORDER BY as in 'sort' (50% with unique id tiebreak, 6% without ORDER BY) plus LIMIT n / p PERCENT [ONLY | WITH TIES] [OFFSET m], the FETCH FIRST|NEXT spelling, or OFFSET alone; n, m from {negative, 0, 1, middle, count-1, count, count+1, beyond}, p from {negative, 0, fractional, whole-row, 100, >100}; the counts are written as literals, strings ('3', ' 3 '), integral floats (3.0), expressions ((2 + 1)), subqueries ((SELECT COUNT(*) FROM t) - d), percentages also as strings and products; 15% read them from variables (the query runs twice, the second run is judged), 12% are placeholders of a prepared statement that is first executed with other counts (the second execution is judged); oracle: reference window [m, m+n) over the reference order (PERCENT of the pre-offset count, WITH TIES extended to the end of the last kept row's tie group, ignored without ORDER BY), output length equals the window's and position i holds a row of the tie group at window position i (exact sequence when the keys are unique; key-tuple multiset otherwise); non-trivial = ORDER BY present, (>=2 keys or duplicates in the first key or NULLs) and the cut removes >=1 and keeps >=1 row, distinct by (key kinds/directions/null positions, tiebreak, limit kind, boundary class)",
 		Assumptions: []string{assumeDomain, assumeNeg, assumePct,
 			"without ORDER BY the kept rows are compared with the same query without the limit clause, when two runs of that query return the same order"},
 	})
